@@ -1630,6 +1630,33 @@ def parse_lines_extra(rng, n):
     return out
 
 
+# command texts with the pieces the conventions of ex.c's scanners assign to them (design.d/C06.md, round tr-exparse): a backslash takes
+# the next byte along and both are kept; the delimiters of s / & / ~ and of a search address protect a bar; g v ! and r / w with a `!`
+# take the rest of the line; a double quote starts a comment that runs to the end of the line; k takes its mark without a blank.
+# (text, loc, cmd, arg, takes the rest of the line)
+CONV = [
+    ('ec a\\|b', '', 'ec', 'a\\|b', False), ('ec x\\\\', '', 'ec', 'x\\\\', False), ('s/a\\/b/c/', '', 's', '/a\\/b/c/', False),
+    ('s/a|b/c/', '', 's', '/a|b/c/', False), ('s,x|y,z,g', '', 's', ',x|y,z,g', False), ('/a\\/b/p', '/a\\/b/', 'p', '', False),
+    ('?x|y?d', '?x|y?', 'd', '', False), ("'a,'bp", "'a,'b", 'p', '', False), ('1,2 p', '1,2', 'p', '', False), ('ka', '', 'k', 'a', False),
+    ('k b', '', 'k', 'b', False), ('pu x', '', 'pu', 'x', False), ('d  a', '', 'd', 'a', False), ('r f', '', 'r', 'f', False),
+    ('zz y', '', 'zz', 'y', False), ('=', '', '=', '', False), ('@a', '', '@', 'a', False), ('s', '', 's', '', False),
+    ('1;/c|d/p', '1;/c|d/', 'p', '', False), ('$-1,$y q', '$-1,$', 'y', 'q', False), ('print', '', 'print', '', False),
+    ('p "comment|d', '', 'p', '', True), ('g/a|b/p|p', '', 'g', '/a|b/p|p', True), ('v/x/d|p', '', 'v', '/x/d|p', True),
+    ('!tr a-z A-Z | cat', '', '!', 'tr a-z A-Z | cat', True), ('r !echo a|b', '', 'r', '!echo a|b', True), ('w !cat|cat', '', 'w', '!cat|cat', True),
+]
+
+
+def conv_lines(rng, n):
+    out = {}
+    for t in CONV:
+        out[t[0]] = [t[1:4]]
+    for _ in range(n):
+        k = 1 + rng.below(4)
+        parts = [rng.choice([t for t in CONV if not t[4]]) for _ in range(k - 1)] + [rng.choice(CONV)]
+        out['|'.join(t[0] for t in parts)] = [t[1:4] for t in parts]
+    return sorted(out.items())
+
+
 def parse_tie(ctx, res, cases, model):
     probe = vlib.build_probe('exparse', includes=['ex', 'term'])
     seen = {}
@@ -1638,9 +1665,9 @@ def parse_tie(ctx, res, cases, model):
             sp = step_pieces(st)
             if sp and sp[0] and len(sp[0]) < 511 and sp[0] not in seen:
                 seen[sp[0]] = sp[1]
-    rendered = sorted(seen.items())
+    rendered = sorted(seen.items()) + ([] if ctx.replay else conv_lines(ctx.rng.fork('convlines'), 300 if ctx.quick else 3000))
     raw = [] if ctx.replay else parse_lines_extra(ctx.rng.fork('parselines'), 1500 if ctx.quick else 20000)
-    lines = [t.encode() for t, _ in rendered] + raw
+    lines = [t.encode('latin-1') for t, _ in rendered] + raw
     lines = [l for l in lines if l and b'\0' not in l]
     reqs = ['parse ' + l.hex() for l in lines]
     rc, out, err = vlib.run_lines(probe, reqs, timeout=600)
@@ -1662,7 +1689,7 @@ def parse_tie(ctx, res, cases, model):
             res.disagree({'what': 'probe_exparse parse: unreadable answer', 'input': l.decode('latin-1'), 'implementation': a[:300]})
             continue
         if i < len(rendered):
-            want = [(x.encode(), y.encode(), z.encode()) for x, y, z in rendered[i][1]]
+            want = [(x.encode('latin-1'), y.encode('latin-1'), z.encode('latin-1')) for x, y, z in rendered[i][1]]
             got = [(p[0], p[1], p[3]) for p in pa]
             if got != want and nviol < 5:
                 nviol += 1
